@@ -224,7 +224,7 @@ def finishOp (d : TD) (prop : String) (toks : List String) (impl : String) (t' :
   let t'' := compact d.subnets t'
   let slow' := fixLists d.t t'' slow
   let d' := { d with t := t'', slow := slow', active := active }
-  let selfIdx := d.bo.length - 1
+  let selfIdx := d.t.self
   -- "at most 10 replacements" is stated by both properties
   let inv := invMonitor d selfIdx impl
   let mon := (if prop == "C18" then inv.filter (· == "replacements_le_10") else inv) ++ (if prop == "C07" then [] else policyMonitor d toks d.prev impl)
@@ -266,6 +266,11 @@ def step (prop : String) (d : TD) (toks : List String) (impl : String) : TD × R
       let res := handleAddNode (boOf d) d.t r (kv toks "inbound" == "1") (kv toks "live" == "1")
       finishOp d prop toks impl res.1 d.slow d.active s!"ret={if res.2 then 1 else 0} "
         ["add", if res.2 then "add-new" else if (d.t.bkt (boOf d r.id)).entries.length ≥ 16 then "add-full" else "add-other"]
+  | ["loadseeds", ks] =>
+    -- the seed-loading step (table construction, every refresh): each boot node goes through the add of a found node, in order
+    let refs := (ks.splitOn ",").filterMap (parseRecRef d)
+    let t' := refs.foldl (fun t r => (handleAddNode (boOf d) t r false false).1) d.t
+    finishOp d prop toks impl t' d.slow d.active "" ["loadseeds", s!"n{refs.length}"]
   | "del" :: k :: _ =>
     match parseRecRef d k with
     | none => (d, { model := "bad-rec" })
@@ -312,7 +317,7 @@ def step (prop : String) (d : TD) (toks : List String) (impl : String) : TD × R
     -- concurrent drive of the running loop: the order of application is unknown, only the invariant is judged.
     -- The revalidation-list clause is judged on drained snapshots only (a running snapshot can fall between the two
     -- updates of one handler, which take the table mutex separately).
-    let selfIdx := d.bo.length - 1
+    let selfIdx := d.t.self
     let mon := (invMonitor d selfIdx impl).filter fun c => c != "reval_lists_agree" || kv toks "phase" == "drained"
     (d, { model := "", skipCompare := true, monitor := if prop == "C18" then mon.filter (· == "replacements_le_10") else mon, tags := ["tsnap", kv toks "phase"] })
   | "tabpanic" :: _ => (d, { model := "no-panic", monitor := ["table_operation_panics"], tags := ["tabpanic"] })
